@@ -496,7 +496,15 @@ def bootstrap_step(rng, w, s, pid):
             return ["Direct", pid, ["SetState", OWNER, 1]]
         return ["Direct", pid, ["Add", rng.choice(users + [OWNER]), a1, a2, 1, 1]]
     if p["state"] != 1:
+        if p["state"] == 0 and w.__dict__.get("paused_enable") == pid and w.adders.get(pid) and w.enable_cfg:
+            # the owner paused the adder's pair before it opened: the adder's (otherwise valid) setSwapEnabledByUser must
+            # be refused - only a pair in ActiveNoSwaps state may be opened by its initial liquidity adder
+            w.paused_enable = None
+            return gen_enable(rng, w, s, pid, True)
         if p["state"] == 2 and w.adders.get(pid) and w.enable_cfg and rng.random() < 0.85:
+            if reg and rng.random() < 0.3:
+                w.paused_enable = pid
+                return ["Pause", OWNER, pid]
             if reg and rng.random() < 0.1:
                 return ["RemovePair", OWNER, p["t1"], p["t2"]]      # the adder's pair is delisted before it opens
             return gen_enable(rng, w, s, pid, rng.random() < 0.7)
